@@ -70,6 +70,15 @@ class GenRandom:
             out.append(self.rand())
         return out
 
+    def random(self, size=None):
+        return self.random_sample(size)
+
+    def uniform(self, low=0.0, high=1.0, size=None):
+        if size is not None:
+            raise sx.EngineUnsupported("uniform with size")
+        u = self.rand()
+        return low + (high - low) * u
+
     def randint(self, low, high=None, size=None):
         if size is not None:
             raise sx.EngineUnsupported("randint with size")
@@ -179,6 +188,50 @@ class OrderedNameSet:
 
     def copy(self):
         return OrderedNameSet(self._d.keys())
+
+    def update(self, *its):
+        for it in its:
+            for x in it:
+                self._d[x] = True
+
+    def pop(self):
+        k = next(iter(self))
+        del self._d[k]
+        return k
+
+    def clear(self):
+        self._d.clear()
+
+    def union(self, *its):
+        r = self.copy()
+        r.update(*its)
+        return r
+
+    def difference(self, *its):
+        r = self.copy()
+        for it in its:
+            for x in it:
+                r.discard(x)
+        return r
+
+    def intersection(self, *its):
+        r = OrderedNameSet(x for x in self._d if all(x in it for it in its))
+        return r
+
+    def issubset(self, other):
+        return all(x in other for x in self._d)
+
+    def issuperset(self, other):
+        return all(x in self._d for x in other)
+
+    __or__ = union
+    __sub__ = difference
+    __and__ = intersection
+    __le__ = issubset
+    __ge__ = issuperset
+
+    def __bool__(self):
+        return len(self._d) > 0
 
     def __contains__(self, x):
         return x in self._d
